@@ -8,7 +8,8 @@ from collections import defaultdict, Counter
 from .. import flow, gen, model, runner, spec_lowlevel as S, uplink
 from ..scen import Scn, call, up
 
-NODESETS = [[(1, 0, 0)], [(0, 0, 0), (1, 0, 0)], [(1, 0, 0), (1, 2, 0), (3, 0, 0)], [(1, 0, 0), (1, 2, 0), (1, 2, 3), (7, 0, 0)]]
+NODESETS = [[(1, 0, 0)], [(0, 0, 0), (1, 0, 0)], [(1, 0, 0), (1, 2, 0), (3, 0, 0)], [(1, 0, 0), (1, 2, 0), (1, 2, 3), (7, 0, 0)],
+            [(1, 200, 0), (2, 200, 0), (200, 0, 0)], [(1, 1, 144), (1, 2, 144), (2, 1, 144), (1, 144, 0)]]      # same high byte under different parents
 UNRELATED = ['MSG_BM_CURRENT', 'MSG_BM_SPEED', 'MSG_BOOST_CURRENT', 'MSG_LC_WAIT', 'MSG_BM_DYN_STATE']
 
 def fn_by_type():
